@@ -5,7 +5,7 @@
    REGENERATED from /repo (FLGen.Gen_ratio.ratio_sub_one) on every run. *)
 From Coq Require Import QArith ZArith List Bool.
 From FL Require Import Num Aggregates Aggregates_proofs.
-From FLGen Require Gen_ratio.
+From FLGen Require Gen_ratio Gen_aggregates.
 Import ListNotations.
 Open Scope Q_scope.
 
@@ -79,6 +79,181 @@ Theorem C02_raise_coerce_agree :
   forall cells ov, aggregates_coerce (map Sc cells) (Sc ov) = aggregates_src cells ov.
 Proof. exact raise_coerce_agree. Qed.
 Print Assumptions C02_raise_coerce_agree.
+
+(* ================================================================================================
+   Extension: the WHOLE by_group / overall tables.  Gen_aggregates is regenerated on every run from
+   DisaggregatedResult.apply_grouping / difference / ratio (and MetricFrame._populate_results / _group)
+   by translators/t_aggregates.py; the C02_src_... theorems state that the regenerated fragments ARE the
+   model's definitions (the functions Aggregates.mf_...), the remaining ones are stated on the regenerated functions.
+   ================================================================================================ *)
+
+(* the three `errors='coerce'` / pre-subtraction cell filters keep every scalar -- bools, ints and floats,
+   ZERO included -- and turn a non-scalar into NaN.  `isinstance(y, float)` fails on (PyInt z),
+   `np.isscalar(y) and y or np.nan` fails on zero. *)
+Theorem C02_src_filters :
+  (forall y, Gen_aggregates.filter_apply_grouping_1 y = coerce_py y) /\
+  (forall y, Gen_aggregates.filter_apply_grouping_2 y = coerce_py y) /\
+  (forall y, Gen_aggregates.filter_difference_1 y = coerce_py y).
+Proof.
+  exact (conj (filter_by_cases Gen_aggregates.filter_apply_grouping_1
+                 (fun _ => eq_refl) (fun _ => eq_refl) (fun _ => eq_refl) eq_refl)
+        (conj (filter_by_cases Gen_aggregates.filter_apply_grouping_2
+                 (fun _ => eq_refl) (fun _ => eq_refl) (fun _ => eq_refl) eq_refl)
+              (filter_by_cases Gen_aggregates.filter_difference_1
+                 (fun _ => eq_refl) (fun _ => eq_refl) (fun _ => eq_refl) eq_refl))).
+Qed.
+Print Assumptions C02_src_filters.
+
+(* what the filter means in terms of the abstract cells of the per-level model *)
+Theorem C02_filter_is_coerce_cell :
+  forall y, num_of (Gen_aggregates.filter_difference_1 y) = coerce_cell (py_to_acell y)
+            /\ py_scalar (Gen_aggregates.filter_difference_1 y).
+Proof. exact coerce_py_is_coerce_cell. Qed.
+Print Assumptions C02_filter_is_coerce_cell.
+
+(* group_min is backed by "min", group_max by "max" (MetricFrame._populate_results) *)
+Theorem C02_src_group_functions :
+  Gen_aggregates.populate_group_min = AggMin /\ Gen_aggregates.populate_group_max = AggMax.
+Proof. exact (conj eq_refl eq_refl). Qed.
+Print Assumptions C02_src_group_functions.
+
+(* apply_grouping: the requested function, skipna left at its default, the filter only under 'coerce' *)
+Theorem C02_src_apply_grouping :
+  Gen_aggregates.apply_grouping_nocf = mf_group_nocf /\
+  (forall (K : Type) (keqb : K -> K -> bool), Gen_aggregates.apply_grouping_cf keqb = mf_group_cf keqb).
+Proof. exact (conj eq_refl (fun K keqb => eq_refl)). Qed.
+Print Assumptions C02_src_apply_grouping.
+
+(* difference: (mf - subtrahend).abs().max() per level, subtrahend = min (between_groups) / overall (to_overall) *)
+Theorem C02_src_difference :
+  Gen_aggregates.difference_nocf = mf_difference_nocf /\
+  (forall (K : Type) (keqb : K -> K -> bool), Gen_aggregates.difference_cf keqb = mf_difference_cf keqb).
+Proof. exact (conj eq_refl (fun K keqb => eq_refl)). Qed.
+Print Assumptions C02_src_difference.
+
+(* ratio: min / max (between_groups); (by_group / overall).transform(fold).min() (to_overall), nothing dropped *)
+Theorem C02_src_ratio :
+  Gen_aggregates.ratio_nocf = mf_ratio_nocf /\
+  (forall (K : Type) (keqb : K -> K -> bool), Gen_aggregates.ratio_cf keqb = mf_ratio_cf keqb).
+Proof. exact (conj eq_refl (fun K keqb => eq_refl)). Qed.
+Print Assumptions C02_src_ratio.
+
+(* C02_per_control_level.  [levels] = for every control level (key, (cells of the sensitive groups, that
+   level's overall value)); rows_of / overall_of lay them out as the by_group rows and the overall table.
+   Every aggregate of the whole table is, level by level, the NO-CONTROL aggregate of that level's cells and
+   of that level's OWN overall value [snd (snd lv)]. *)
+Theorem C02_per_control_level :
+  forall (K : Type) (keqb : K -> K -> bool), (forall a b, keqb a b = true <-> a = b) ->
+  forall e (levels : list (K * (list pycell * ext))),
+    NoDup (map fst levels) -> (forall lv, In lv levels -> fst (snd lv) <> []) ->
+    mf_table_cf keqb Gen_ratio.ratio_sub_one e (rows_of levels) (overall_of levels)
+    = map (fun lv => (fst lv, mf_record_nocf Gen_ratio.ratio_sub_one e (fst (snd lv)) (snd (snd lv)))) levels.
+Proof. exact (fun K keqb H => per_control_level keqb H Gen_ratio.ratio_sub_one). Qed.
+Print Assumptions C02_per_control_level.
+
+(* the same for by_group rows in ANY order and any overall table: the record at control key k is made of the
+   rows of key k and of the overall value at key k *)
+Theorem C02_table_keyed :
+  forall (K : Type) (keqb : K -> K -> bool), (forall a b, keqb a b = true <-> a = b) ->
+  forall e by_group overall,
+    mf_table_cf keqb Gen_ratio.ratio_sub_one e by_group overall
+    = map (fun k => (k, mf_record_nocf Gen_ratio.ratio_sub_one e (kcells keqb k by_group) (klookup keqb k overall)))
+          (kkeys keqb (map fst by_group)).
+Proof. exact (fun K keqb H => mf_table_keyed keqb H Gen_ratio.ratio_sub_one). Qed.
+Print Assumptions C02_table_keyed.
+
+(* aggregate by aggregate, on the REGENERATED functions *)
+Theorem C02_group_per_level_src :
+  forall (K : Type) (keqb : K -> K -> bool), (forall a b, keqb a b = true <-> a = b) ->
+  forall g e (levels : list (K * (list pycell * ext))) lv,
+    NoDup (map fst levels) -> (forall lv, In lv levels -> fst (snd lv) <> []) -> In lv levels ->
+    klookup keqb (fst lv) (Gen_aggregates.apply_grouping_cf keqb g e (rows_of levels))
+    = Gen_aggregates.apply_grouping_nocf g e (fst (snd lv)).
+Proof. exact (fun K keqb H => group_per_level keqb H). Qed.
+Print Assumptions C02_group_per_level_src.
+
+Theorem C02_difference_per_level_src :
+  forall (K : Type) (keqb : K -> K -> bool), (forall a b, keqb a b = true <-> a = b) ->
+  forall m e (levels : list (K * (list pycell * ext))) lv,
+    NoDup (map fst levels) -> (forall lv, In lv levels -> fst (snd lv) <> []) -> In lv levels ->
+    klookup keqb (fst lv) (Gen_aggregates.difference_cf keqb m e (rows_of levels) (overall_of levels))
+    = Gen_aggregates.difference_nocf m e (fst (snd lv)) (snd (snd lv)).
+Proof. exact (fun K keqb H => difference_per_level keqb H). Qed.
+Print Assumptions C02_difference_per_level_src.
+
+Theorem C02_ratio_per_level_src :
+  forall (K : Type) (keqb : K -> K -> bool), (forall a b, keqb a b = true <-> a = b) ->
+  forall m e (levels : list (K * (list pycell * ext))) lv,
+    NoDup (map fst levels) -> (forall lv, In lv levels -> fst (snd lv) <> []) -> In lv levels ->
+    klookup keqb (fst lv) (Gen_aggregates.ratio_cf keqb Gen_ratio.ratio_sub_one m e (rows_of levels) (overall_of levels))
+    = Gen_aggregates.ratio_nocf Gen_ratio.ratio_sub_one m e (fst (snd lv)) (snd (snd lv)).
+Proof. exact (fun K keqb H => ratio_per_level keqb H Gen_ratio.ratio_sub_one). Qed.
+Print Assumptions C02_ratio_per_level_src.
+
+(* no control features = one level *)
+Theorem C02_no_control_is_one_level :
+  forall e cells ov, cells <> [] ->
+    mf_table_cf (fun _ _ : unit => true) Gen_ratio.ratio_sub_one e
+                (rows_of [(tt, (cells, ov))]) (overall_of [(tt, (cells, ov))])
+    = [(tt, mf_record_nocf Gen_ratio.ratio_sub_one e cells ov)].
+Proof. exact (no_control_is_one_level Gen_ratio.ratio_sub_one). Qed.
+Print Assumptions C02_no_control_is_one_level.
+
+(* the column-level (no control) functions ARE the per-level model all theorems above are about: on scalar
+   cells -- python ints, floats, bools -- for errors='raise' and 'coerce' alike *)
+Theorem C02_column_is_aggregates :
+  forall e cells ov, Forall py_scalar cells ->
+    mf_record_nocf Gen_ratio.ratio_sub_one e cells ov = aggregates_src (c_num cells) ov.
+Proof. exact (record_nocf_scalar Gen_ratio.ratio_sub_one). Qed.
+Print Assumptions C02_column_is_aggregates.
+
+(* errors='coerce' with arbitrary cells: min, max, both differences and ratio(between_groups) see a
+   non-scalar cell as NaN.  PARTIAL: ratio(to_overall) divides the UNFILTERED by_group (the source applies
+   no filter there, whatever `errors`), which is outside the model for non-scalar cells. *)
+Theorem C02_coerce_nonscalar_is_nan_partial :
+  forall cells ov,
+    let r := mf_record_nocf Gen_ratio.ratio_sub_one ErrCoerce cells ov in
+    let a := aggregates_coerce (map py_to_acell cells) (Sc ov) in
+    a_min r = a_min a /\ a_max r = a_max a /\ a_diff_between r = a_diff_between a
+    /\ a_diff_overall r = a_diff_overall a /\ a_ratio_between r = a_ratio_between a.
+Proof. exact (record_nocf_coerce Gen_ratio.ratio_sub_one). Qed.
+Print Assumptions C02_coerce_nonscalar_is_nan_partial.
+
+(* a per-level theorem lifted to the whole table: every row of the to_overall ratio table is <= 1 *)
+Theorem C02_table_ratio_to_overall_le_one :
+  forall (K : Type) (keqb : K -> K -> bool), (forall a b, keqb a b = true <-> a = b) ->
+  forall e by_group overall,
+    Forall (fun kr => le_one_or_nan (a_ratio_overall (snd kr)))
+           (mf_table_cf keqb Gen_ratio.ratio_sub_one e by_group overall).
+Proof. exact (fun K keqb H => table_ratio_to_overall_le_one keqb H). Qed.
+Print Assumptions C02_table_ratio_to_overall_le_one.
+
+(* non-vacuity of C02_per_control_level and what it excludes: two control levels with integer cells, a zero
+   cell and a non-scalar cell.  Level 0 has overall 3, level 1 overall 2, the global overall is 5/2: the
+   to_overall difference of level 0 is 3 with its own overall, but would be 2 with level 1's and 5/2 with the
+   global one; the to_overall ratio of level 1 is 1/4, but would be 1/6 resp. 1/5. *)
+Example C02_per_control_level_example :
+  let c0 := [PyInt 4; PyInt 0; PyNonScalar; PyInt 3] in
+  let c1 := [PyFloat (Fin (1 # 2)); PyInt 2] in
+  let levels := [(0%Z, (c0, Fin 3)); (1%Z, (c1, Fin 2))] in
+  let diff := Gen_aggregates.difference_cf Z.eqb ToOverall ErrCoerce (rows_of levels) (overall_of levels) in
+  let ratio := Gen_aggregates.ratio_cf Z.eqb Gen_ratio.ratio_sub_one ToOverall ErrCoerce
+                                       (rows_of levels) (overall_of levels) in
+  (forall a b, Z.eqb a b = true <-> a = b) /\ NoDup (map fst levels)
+  /\ (forall lv, In lv levels -> fst (snd lv) <> [])
+  /\ Flat.enc_ext (klookup Z.eqb 0%Z diff) = [0; 3; 1]%Z
+  /\ Flat.enc_ext (Gen_aggregates.difference_nocf ToOverall ErrCoerce c0 (Fin 3)) = [0; 3; 1]%Z
+  /\ Flat.enc_ext (Gen_aggregates.difference_nocf ToOverall ErrCoerce c0 (Fin 2)) = [0; 2; 1]%Z
+  /\ Flat.enc_ext (Gen_aggregates.difference_nocf ToOverall ErrCoerce c0 (Fin (5 # 2))) = [0; 5; 2]%Z
+  /\ Flat.enc_ext (klookup Z.eqb 1%Z ratio) = [0; 1; 4]%Z
+  /\ Flat.enc_ext (Gen_aggregates.ratio_nocf Gen_ratio.ratio_sub_one ToOverall ErrCoerce c1 (Fin 2)) = [0; 1; 4]%Z
+  /\ Flat.enc_ext (Gen_aggregates.ratio_nocf Gen_ratio.ratio_sub_one ToOverall ErrCoerce c1 (Fin 3)) = [0; 1; 6]%Z
+  /\ Flat.enc_ext (Gen_aggregates.ratio_nocf Gen_ratio.ratio_sub_one ToOverall ErrCoerce c1 (Fin (5 # 2))) = [0; 1; 5]%Z.
+Proof.
+  cbv zeta. split; [exact Z.eqb_eq|]. split; [repeat constructor; cbn; intuition discriminate|].
+  split; [intros lv [<-|[<-|[]]]; discriminate|].
+  repeat split; vm_compute; reflexivity.
+Qed.
 
 (* non-vacuity: a table with an empty intersection (NaN), a zero group value and a zero overall *)
 Example C02_example :
